@@ -250,6 +250,8 @@ func cmdCheck(args []string) int {
 				n = "inventory/effects/" + a.Name
 			case "writes":
 				n = "inventory/writes/" + a.Name
+			case "datakeys":
+				n = "inventory/datakeys"
 			}
 			led = append(led, LedgerEntry{"(analysis)", n})
 		}
@@ -353,6 +355,8 @@ func cmdCheck(args []string) int {
 			r = e.writeInventory(a.Name, a.Roots, a.ImmutablePkgs, a.Scratch)
 		case "impls":
 			r = e.ifaceImplInventory(a.Iface)
+		case "datakeys":
+			r = e.dataKeyInventory()
 		default:
 			r = analysisResult{Name: "inventory/" + a.Kind, Desc: "unknown analysis kind"}
 		}
